@@ -4,6 +4,7 @@ Monitor: invariant hook I1-I4 (wf.check_c01) over the whole universe after EVERY
 (accepted, refused or crashed), plus transition check I5 on reorder assignments.  A second workload runs
 the readers / uniquify / flatten / clone under the probe layer so that the same invariants are evaluated at
 every outermost mutator exit *inside* those library routines."""
+import sys
 import collections
 
 from .. import common
@@ -23,7 +24,8 @@ RULE = ("case = one random history of 60-200 public mutator calls (valid and inv
 ASSUMPTIONS = ["oracle uses only the public read API", "proxy outer pins are inputs, not members of the universe",
                "histories stay under one naming policy (docs disclaim switching mid-netlist)"]
 REQUIRED = {"invariant_evals": 1000, "calls_ok": 500, "calls_refusal": 100, "reorders_checked": 20}
-PROBES = {}
+BADPOS = "non-integer-position-fails-late"
+PROBES = {BADPOS: lambda: gen_ops.probe_bad_position("connect")}
 
 
 def plan(tier):
@@ -88,7 +90,8 @@ def run_case(ctx, i, rng):
     try:
         if i % 10 == 9:
             return embedded_case(ctx, i, rng)
-        eng = gen_ops.Engine(rng, "uniform", policy)
+        # (open finding: only connect_pin is kept away from non-integer positions - for the add_* calls C01's facts hold)
+        eng = gen_ops.Engine(rng, "uniform", policy, fences=("bad_position_connect",) if common.fenced(sys.modules[__name__], BADPOS) else ())
         n = rng.randint(60, 200)
         gen_ops.run_history(eng, n, [C01Monitor(ctx)])
         oks = sum(1 for e in eng.log if e[3] == "ok")
